@@ -226,6 +226,11 @@ func runC10(p *core.Program, r *core.Report) {
 						}
 					} else if isPoint {
 						r.Viol("C10.guarded", mname, pos, "unsynchronised "+strings.Join(uniq(bad), ", ")+" while other methods write these fields under the mutex: data race")
+					} else if len(fl.LockSites) > 0 && !snapshot {
+						// a whole-structure operation that does take the mutex, but reads guarded state
+						// outside it first (a result sized from an unlocked Size() and filled under the
+						// lock): its two looks at the structure come from different instants
+						r.Viol("C10.guarded", mname, pos, "takes the mutex but makes an unsynchronised "+strings.Join(uniq(bad), ", ")+" outside it: what it read before locking no longer describes what it walks under the lock")
 					} else {
 						r.Info("C10.guarded", mname+" (not a point operation)", pos, "unsynchronised "+strings.Join(uniq(bad), ", "))
 					}
